@@ -129,16 +129,39 @@ def dag_menu_quick(cols, roles, depth, hist):
     return dag_menu(cols, roles, depth, hist, rich=False)
 
 
+def raw_sql_pipelines():
+    """pipelines whose leaves are raw SQL nodes (steps that carry no ops_key) used twice with different text;
+    expressed as pseudo-histories {"special": name} because SQLNode is not a builder step of the menus"""
+    return [{"table": "d", "special": n, "steps": []} for n in ("sqlnode_concat", "sqlnode_join", "sqlnode_same_twice", "sqlnode_concat_extend")]
+
+
+def build_special(name):
+    from data_algebra.view_representations import SQLNode
+
+    a = SQLNode(sql=['SELECT "g", "x" FROM "d" WHERE "x" <= 1'], column_names=["g", "x"], view_name="va")
+    b = SQLNode(sql=['SELECT "g", "x" FROM "d" WHERE "x" > 1'], column_names=["g", "x"], view_name="vb")
+    if name == "sqlnode_concat":
+        return a.concat_rows(b, id_column="src")
+    if name == "sqlnode_concat_extend":
+        return a.extend({"y": "x + 1"}).concat_rows(b.extend({"y": "x + 1"}), id_column=None)
+    if name == "sqlnode_join":
+        return a.natural_join(b.rename_columns({"x2": "x"}), on=["g"], jointype="LEFT")
+    if name == "sqlnode_same_twice":
+        return a.extend({"y": "x + 1"}).concat_rows(a.extend({"y": "x + 1"}), id_column="src")
+    raise ValueError(name)
+
+
 def work(hists, tier, open_ids):
     part = core.Part(open_ids)
     grid = option_grid(tier)
     for hist in hists:
         try:
-            ops = H.build(hist)
+            ops = build_special(hist["special"]) if "special" in hist else H.build(hist)
         except Exception:
             part.count("state_not_rebuildable")
             continue
         part.count("states_evaluated")
+        label = hist.get("special") or H.short(hist)
         tabs = H.hist_tables(hist)
         datas = inputs.data_maps(tabs, 2, 1, inputs.D_ROWS_Q, inputs.E_ROWS_Q)
         for dialect in ("sqlite", "pgtext@sqlite"):
@@ -157,12 +180,12 @@ def work(hists, tier, open_ids):
             if base[0] != "ok":
                 ok_variants = [o for os_ in texts.values() for o in os_]
                 if ok_variants:
-                    part.violation({"history": hist, "dialect": dialect, "default": compare.brief(base), "variant_options": ok_variants[0]}, f"{dialect}: the default options fail to translate but other options succeed: {H.short(hist)}")
+                    part.violation({"history": hist, "dialect": dialect, "default": compare.brief(base), "variant_options": ok_variants[0]}, f"{dialect}: the default options fail to translate but other options succeed: {label}")
                 else:
                     part.count("untranslatable:" + dialect)
                 continue
             for opt, g in failed[:1]:
-                part.violation({"history": hist, "dialect": dialect, "options": opt, "error": compare.brief(g)}, f"{dialect}: options {opt} make translation fail ({g[1]}) while the default options translate: {H.short(hist)}")
+                part.violation({"history": hist, "dialect": dialect, "options": opt, "error": compare.brief(g)}, f"{dialect}: options {opt} make translation fail ({g[1]}) while the default options translate: {label}")
             for data in datas:
                 rb = backends.run_sql(base[1], data)
                 stop = False
@@ -177,13 +200,13 @@ def work(hists, tier, open_ids):
                     if not diff.results_equal(hist, rb, r):
                         part.violation(
                             {"history": hist, "data": data, "dialect": dialect, "options": opts[0], "n_option_settings_with_this_text": len(opts), "default_result": compare.brief(rb), "variant_result": compare.brief(r), "variant_sql": text, "default_sql": base[1]},
-                            f"{dialect}: options {opts[0]} change the query result: {H.short(hist)}",
+                            f"{dialect}: options {opts[0]} change the query result: {label}",
                         )
                         stop = True
                         break
                 if stop:
                     break
-        part.sample({"history": H.short(hist)}, limit=1)
+        part.sample({"history": label}, limit=1)
     return part.dump()
 
 
@@ -192,7 +215,7 @@ def run(tier):
     depth = 3 if tier == "quick" else 4
     ex = explorer.Explorer(dag_menu_quick if tier == "quick" else dag_menu)
     states = ex.run(depth)
-    hists = core.rotate([s.hist for s in states], run.seed)
+    hists = core.rotate([s.hist for s in states] + raw_sql_pipelines(), run.seed)
     for p in core.pmap(work, [(c, tier, list(run.open_findings)) for c in core.chunks(hists, 6)]):
         run.merge(p)
     st = ex.stats()
@@ -206,7 +229,7 @@ def run(tier):
     ]
     return run.finish(
         exhaustive=True,
-        rule=f"every state at depth <= {depth} of the DAG slice (window/plain extends, selections, projections, limits, joins and concatenations with the state's own prefixes as the same object and as a rebuilt copy) x {len(option_grid(tier))} option settings ({'the full product of the five switches under the default indent plus 4 settings with other indents' if tier == 'quick' else 'the full product of the five switches and three indent strings'}) x 2 dialect texts x all multisets of <= 2 rows",
+        rule=f"every state at depth <= {depth} of the DAG slice (window/plain extends, selections, projections, limits, joins and concatenations with the state's own prefixes as the same object and as a rebuilt copy), plus 4 pipelines over raw SQL nodes used twice, x {len(option_grid(tier))} option settings ({'the full product of the five switches under the default indent plus 4 settings with other indents' if tier == 'quick' else 'the full product of the five switches and three indent strings'}) x 2 dialect texts x all multisets of <= 2 rows",
     )
 
 
